@@ -875,7 +875,9 @@ impl Machine {
             self.machine_st.e = or_frame.prelude.e;
             self.machine_st.cp = or_frame.prelude.cp;
 
-            or_frame.prelude.biip += iip_offset;
+            // relative to the clause just selected (machine_st.iip), which for a
+            // DynamicIndexedChoice may lie beyond biip when retracted clauses were skipped.
+            or_frame.prelude.biip = self.machine_st.iip + iip_offset;
 
             let target_h = or_frame.prelude.h;
             let attr_var_queue_len = or_frame.prelude.attr_var_queue_len;
